@@ -56,3 +56,6 @@ prop("C11", lambda t, s: [("mc", "Mc", n(t, "McCompound", "McCompound4")), ("dri
 
 prop("C12", lambda t, s: [("mc", "NackAlg", n(t, "McNack", "McNackThorough")), ("drive", "nackrand", n(t, 1500, 60000))],
      exhaustive_note="McNack enumerates every list of up to 3 sequence numbers over 17 (thorough: 26) boundary values, Range with every stop position on every pair built from lists of up to 2, and the complete 2^16 bitmap table at 2 (thorough: 6) packet IDs")
+
+prop("C13", lambda t, s: [("mc", "TwccAlg", n(t, "McTwcc", "McTwccThorough")), ("drive", "twccfuzz", n(t, 3000, 100000)), ("drive", "fuzz", n(t, 400, 10000))],
+     exhaustive_note="McTwcc enumerates every status sequence of length 0..5 (thorough: 0..7) over {not received, small, large} in every chunking (run-length splits, 1-bit and 2-bit vectors, run-length overshoot 1 and 8191), plus two-run sequences with run lengths straddling 7 and 14 in six systematic chunkings")
